@@ -19,8 +19,8 @@ FUNCTIONS['rewrite'] = ['LNot'] + ['%s.get_equivalent_restricted_formula' % c fo
                                    ('AtomicProposition', 'Not', 'A', 'E', 'X', 'F', 'G', 'Or', 'And', 'Imply', 'U', 'R')]
 FUNCTIONS['rewrite'] += ['EX', 'EG', 'EU', 'CTL.A.get_equivalent_restricted_formula', 'CTL.E.get_equivalent_restricted_formula']
 FUNCTIONS['fair'] = ['Kripke.get_fair_states.<locals>.is_a_fair_SCC', 'Kripke.get_fair_states', 'Kripke.label_fair_states', 'CTL.modelcheck(fair)']
-FUNCTIONS['ltl'] = ['LTL.modelcheck']
-FUNCTIONS['ctls'] = ['_remove_state_subformulas', '_checkQuantifiedFormula', 'CTLS.modelcheck']
+FUNCTIONS['ltl'] = ['LTL.modelcheck', 'LTL.modelcheck(text)']
+FUNCTIONS['ctls'] = ['_remove_state_subformulas', '_checkQuantifiedFormula', 'CTLS.modelcheck', 'CTLS.modelcheck(text)']
 FUNCTIONS['bdd'] = ['find_isomorph', 'BDDNode.__reset__', 'BDDNonTerminalNode.__reset__', 'BDDNonTerminalNode.__new__']
 FUNCTIONS['bddops'] = ['BDDNonTerminalNode.__invert__', 'BDDTerminalNode.__invert__', 'cache_restrict', 'compute_restrict',
                        'apply', 'compute', 'BDDsons_and_BDD', 'BDD_and_BDDsons', 'BDDsons_and_BDDsons']
@@ -29,8 +29,11 @@ FUNCTIONS['bddops'] += ['BDDNode.restrict', 'OBDD.restrict']
 FUNCTIONS['bddops'] += ['OBDD.__init__', 'OBDD.apply', 'OBDD.__and__', 'OBDD.__or__', 'OBDD.__xor__', 'OBDD.__invert__']
 PROPERTY_FUNCTIONS = {
     'C10': ['Parser.__call__'],
-    'C02': ['LTL.modelcheck', 'LNot', 'Not.get_equivalent_restricted_formula'],
-    'C03': ['_get_a_new_atomic_proposition_for', 'Kripke.labels'] + FUNCTIONS['ctls'] + ['Kripke.clone', 'LTL.modelcheck', 'LNot'],
+    'C02': ['LTL.modelcheck', 'LTL.modelcheck(text)', 'LNot', 'Not.get_equivalent_restricted_formula', 'Parser.__call__'],
+    'C03': ['_get_a_new_atomic_proposition_for', 'Kripke.labels'] + FUNCTIONS['ctls'] + ['Kripke.clone', 'LTL.modelcheck', 'LNot', 'Parser.__call__'],
+    # "text or object: the same set" is a corollary of the text-leg contracts (each is the object-leg statement about
+    # the formula object the parser returns); the cross-checker agreement itself is bounded
+    'C04': ['CTL.modelcheck(text)', 'LTL.modelcheck(text)', 'CTLS.modelcheck(text)', 'modelcheck', 'LTL.modelcheck', 'CTLS.modelcheck', 'Parser.__call__'],
     'C16': FUNCTIONS['bdd'],
     'C17': FUNCTIONS['bddops'] + ['BDDNonTerminalNode.__new__', 'BDDNonTerminalNode.__reset__'],
     'C05': FUNCTIONS['rewrite'],
@@ -105,6 +108,9 @@ TRUSTED = {
             'write nothing that existed before the call except the CONTENTS of label sets of the structure they are applied to - which in CTL.modelcheck is the clone; the result is a new set of states',
             'ASSUMED: contract of compute_SCCs (C12, bounded); F is a container of existing set objects; get_equivalent_non_fair_formula returns a documented CTL state formula and touches no structure',
             'what is computed (fair states, fair semantics) is wrong on the pinned tree (KF-C15-1/2/3) and is decided by the bounded check against defect models; LTL and CTL* with F: bounded only'],
+    'C04': ['only "passing the formula as text or as an object gives the same set" has a deductive counterpart: the text legs of the three modelcheck functions are proved to satisfy the '
+            'object-leg statement at the formula object the default parser returns (relied-on obligations, owned by C01/C02/C03/C07/C19); agreement between the three checkers and the semantic laws are bounded only',
+            'for CTL* the text leg is proved for frame/safety only, for LTL relative to the assumed tableau contract'],
     'C07': ['frame obligations cover: the CTL labelling functions and CTL.modelcheck (object formula, F=None); LTL.modelcheck wrapper (given the assumed _checkE_path_formula contract); '
             'CTLS.modelcheck, _remove_state_subformulas, _checkQuantifiedFormula (object formula): writes go to objects allocated during the call, or to the label sets of the CLONE',
             'ASSUMED in the CTL* call graph: CTL.modelcheck called with an arbitrary formula object (cast leg) either raises TypeError or returns a new set and writes nothing older than the call; '
